@@ -500,6 +500,12 @@ def coq_opt(x, f=str):
     return "None" if x is None else "(Some %s)" % f(x)
 
 
+def jlines(s):
+    """split harness output into non-empty lines on LF only: str.splitlines() also splits on U+0085, U+2028, U+2029,
+    VT, FF ..., which serde_json leaves unescaped inside strings"""
+    return [l for l in s.split("\n") if l.strip() != ""]
+
+
 class Rng:
     """splitmix64, same as the harness crates use"""
     def __init__(self, seed):
